@@ -1,4 +1,4 @@
-/* C14 — routed-request deadlines: right value, never early, exactly one outcome.
+/* C14 - routed-request deadlines: right value, never early, exactly one outcome.
  * section 0: timeout value x precedence product on the virtual clock (never early / prompt / late reply discarded)
  * section 1: all batch compositions and dispatch orders of events that become ready together
  *            (owner reply, expiry, caller disconnect, owner disconnect, a second request's expiry). */
